@@ -218,6 +218,13 @@ func verifBlock() (*Service, *header.ExtendedHeader, []verifItem, int, int, int,
 		pos += n
 		col = 0
 	}
+	if len(roots) > w {
+		// the run does not fit into the ODS rows of this square: not a layout
+		// a block can have (without this guard the row-root list grew beyond
+		// 2w and the thorough tier reported indices "wrong" relative to a
+		// square that does not exist)
+		nd.End()
+	}
 	for len(roots) < 2*w {
 		roots = append(roots, verifRoot(libshare.ParitySharesNamespace, libshare.ParitySharesNamespace))
 	}
